@@ -15,6 +15,7 @@
 #include <sstream>
 #include <memory>
 #include <type_traits>
+#include <utility>
 
 using vrt::Rng;
 using vrt::sfmt;
@@ -40,9 +41,170 @@ struct Stor {
     bool st;                 // an ST::string / ST::buffer (storage rules apply) or a std:: string (only the overlap rules)
 };
 
+// ---- where the objects live.  ST::string has alignment 8, but whatever malloc, operator new, a local variable or a
+// std::vector element gives a program is 16-byte aligned; an object at an address 8 mod 16 exists only as a member behind an
+// int, as std::pair<int, ST::string>::second, inside a std::map node ...  Half of the stand-alone pool objects therefore live 8 bytes
+// into a block of sizeof(ST::string) + 8 bytes (the END of the object is still the end of the block, so a write past the object lands in
+// the red zone; the 8 bytes in front are poisoned under ASan).  Some pools also keep their first slots inside one block, laid
+// out the way the members of a struct / the elements of an array are: there a write that leaves one object lands in its
+// neighbour, which ASan cannot see and the monitors can (they look at every live string before and after every step).  A released
+// stand-alone block is, one time in four, handed to the next object of the same kind (rt/vrt_st.h "address reuse").
+template <typename Obj>
+struct Places {
+    enum { NONE = 0, RECORDS, ARRAY, PAIRS };
+    struct Record { int id; Obj a; Obj b; };                 // (only its layout is used)
+    static const size_t MEMBER = (sizeof(int) + alignof(Obj) - 1) / alignof(Obj) * alignof(Obj);      // offset of a member behind an int
+    static_assert(sizeof(Record) == MEMBER + 2 * sizeof(Obj) && sizeof(std::pair<int, Obj>) == MEMBER + sizeof(Obj) && MEMBER % 8 == 0 && sizeof(Obj) % 8 == 0,
+                  "layout of an object that is a member behind an int");
+    static const size_t MAXFIXED = 4;
+    int layout = NONE;
+    char *block[2] = {nullptr, nullptr};
+    size_t block_bytes[2] = {0, 0};
+    char *fixed[MAXFIXED] = {nullptr, nullptr, nullptr, nullptr};       // slot k < nfixed lives here
+    size_t nfixed = 0;
+    char *canary[2] = {nullptr, nullptr};                               // the `int` members (and their padding)
+    size_t ncanary = 0;
+
+    static void poison(void *p, size_t n) { vrt::RecyclePool::poison(p, n); }
+    static void unpoison(void *p, size_t n) { vrt::RecyclePool::unpoison(p, n); }
+    static char *raw(size_t bytes)
+    {
+        void *p = malloc(bytes);
+        if (!p) { fprintf(stderr, "vrt: out of memory\n"); _exit(98); }
+        return static_cast<char *>(p);
+    }
+    Places() { }
+    Places(const Places &) = delete;
+    Places &operator=(const Places &) = delete;
+    void init(int want)
+    {
+        layout = want;
+        auto add_block = [&](size_t k, size_t bytes) { block[k] = raw(bytes); block_bytes[k] = bytes; memset(block[k], 0xC5, bytes); poison(block[k], bytes); };
+        auto add_canary = [&](char *at) { unpoison(at, MEMBER); canary[ncanary++] = at; };
+        switch (layout) {
+        case RECORDS:         // two `struct { int id; Obj a; Obj b; }`, each in a block of its own: all four objects at 8 mod 16
+            for (size_t k = 0; k < 2; ++k) {
+                add_block(k, sizeof(Record));
+                add_canary(block[k]);
+                fixed[nfixed++] = block[k] + MEMBER;
+                fixed[nfixed++] = block[k] + MEMBER + sizeof(Obj);
+            }
+            break;
+        case ARRAY: {         // `Obj arr[3]`, in half of the pools behind an 8-byte header
+            const size_t lead = (vrt::placement_here() && (vrt::placement_next() & 1)) ? 8 : 0;
+            add_block(0, lead + 3 * sizeof(Obj));
+            for (size_t k = 0; k < 3; ++k) fixed[nfixed++] = block[0] + lead + k * sizeof(Obj);
+            break;
+        }
+        case PAIRS: {         // `std::pair<int, Obj> arr[2]`
+            const size_t stride = MEMBER + sizeof(Obj);
+            add_block(0, 2 * stride);
+            for (size_t k = 0; k < 2; ++k) { add_canary(block[0] + k * stride); fixed[nfixed++] = block[0] + k * stride + MEMBER; }
+            break;
+        }
+        default: layout = NONE; break;
+        }
+    }
+    ~Places()
+    {
+        for (size_t k = 0; k < 2; ++k)
+            if (block[k]) { unpoison(block[k], block_bytes[k]); free(block[k]); }
+    }
+    bool canaries_intact() const
+    {
+        for (size_t k = 0; k < ncanary; ++k)
+            for (size_t b = 0; b < MEMBER; ++b)
+                if (static_cast<unsigned char>(canary[k][b]) != 0xC5) return false;
+        return true;
+    }
+    // a layout for a pool, from the per-case placement stream: half of the pools have stand-alone objects only
+    static int draw_layout()
+    {
+        if (!vrt::placement_here() || !vrt::placement_shifts()) return NONE;
+        switch ((vrt::placement_next() >> 5) & 7) {
+        case 0: case 1: return RECORDS;
+        case 2: return ARRAY;
+        case 3: return PAIRS;
+        default: return NONE;
+        }
+    }
+    // memory for a stand-alone object: a block that ends where the object ends; the object starts at 0 or 8 mod 16
+    struct Own { void *base = nullptr; size_t bytes = 0; };
+    static void *obtain(Own &o, int lead_wanted)           // lead_wanted: 0 / 8, or -1 = from the placement stream
+    {
+        size_t lead = 0;
+        if (lead_wanted >= 0) lead = static_cast<size_t>(lead_wanted);
+        else if (vrt::placement_here() && vrt::placement_shifts() && (vrt::placement_next() & 1)) lead = 8;
+        o.bytes = sizeof(Obj) + lead;
+        o.base = vrt::recycle_pool().take(o.bytes);
+        if (!o.base) o.base = raw(o.bytes);
+        if (lead) poison(o.base, lead);
+        return static_cast<char *>(o.base) + lead;
+    }
+    static void release(Own &o)
+    {
+        if (o.bytes > sizeof(Obj)) unpoison(o.base, o.bytes - sizeof(Obj));
+        if (!vrt::recycle_pool().park(o.base, o.bytes)) free(o.base);
+        o.base = nullptr;
+        o.bytes = 0;
+    }
+    static void tally(const void *obj)
+    {
+        if (reinterpret_cast<uintptr_t>(obj) % 16 == 8) { static uint64_t &c = vrt::counter("placement.objects_at_8_mod_16"); ++c; }
+        else { static uint64_t &c = vrt::counter("placement.objects_16_byte_aligned"); ++c; }
+    }
+};
+
+typedef Places<ST::string> SP;
+// scripted step: the next stand-alone box starts 0 / 8 bytes into its block (-1: from the placement stream)
+static int g_lead_next = -1;
+
+// An ST::string in memory that ends where the object ends (what vrt::Box gives), at an address that is 0 or 8 mod 16 - or at a
+// fixed place inside a block it shares with its neighbours.
+struct At { void *where; };
+struct SBox {
+    ST::string *p = nullptr;
+    SP::Own own;
+    bool fixed = false;
+    template <typename... A>
+    explicit SBox(A &&...a)
+    {
+        void *mem = SP::obtain(own, g_lead_next);
+        g_lead_next = -1;
+        SP::tally(mem);
+        try { p = new (mem) ST::string(std::forward<A>(a)...); } catch (...) { SP::release(own); throw; }
+    }
+    SBox(At at, ST::string &&v) : fixed(true)
+    {
+        SP::unpoison(at.where, sizeof(ST::string));
+        SP::tally(at.where);
+        p = new (at.where) ST::string(std::move(v));
+    }
+    SBox(const SBox &) = delete;
+    SBox &operator=(const SBox &) = delete;
+    ~SBox()
+    {
+        if (!p) return;
+        p->~string();
+        if (fixed) SP::poison(p, sizeof(ST::string));          // (the place stays; nothing may touch it until the next string is built there)
+        else SP::release(own);
+    }
+    ST::string &operator*() { return *p; }
+    ST::string *operator->() { return p; }
+    const ST::string &operator*() const { return *p; }
+    const ST::string *operator->() const { return p; }
+    const char *lo() const { return reinterpret_cast<const char *>(p); }
+    const char *hi() const { return reinterpret_cast<const char *>(p) + sizeof(ST::string); }
+    bool inside(const void *q) const
+    {
+        const char *c = static_cast<const char *>(q);
+        return c >= lo() && c < hi();
+    }
+};
+
 struct Pool {
     static const size_t N = 12;
-    vrt::Box<ST::string> *obj[N] = {};
+    SBox *obj[N] = {};
     S shadow[N];
     bool moved_from[N] = {};
     S history;
@@ -52,13 +214,19 @@ struct Pool {
     // scale phase (same operations, same monitors, big values): main length of the case, cap for values grown by +=
     bool scale_mode = false;
     size_t scale_n = 0, grow_cap = 0;
+    // soak phase: values of 64..300 bytes
+    bool soak_mode = false;
+    // where the strings live: slots k < places.nfixed are neighbours inside one block (struct { int id; ST::string a; ST::string b; },
+    // ST::string arr[3], std::pair<int, ST::string> arr[2]), the others stand alone, half of them at an address 8 mod 16
+    SP places;
 
+    explicit Pool(int layout = -1) { places.init(layout >= 0 ? layout : SP::draw_layout()); }
     ~Pool() { for (size_t i = 0; i < N; ++i) kill(i); }
     void kill(size_t i) { delete obj[i]; obj[i] = nullptr; moved_from[i] = false; }
     void make(size_t i, const S &v)
     {
         kill(i);
-        obj[i] = new vrt::Box<ST::string>(vrt::mk(v));
+        obj[i] = i < places.nfixed ? new SBox(At{places.fixed[i]}, vrt::mk(v)) : new SBox(vrt::mk(v));
         shadow[i] = v;
     }
     void fail(const char *what, const std::string &detail)
@@ -73,7 +241,7 @@ struct Pool {
 
     // storage of `s` (living in `box`) must be its own: in-object when short, otherwise one
     // registry block that no pool object and no other given object points at
-    void owns(const char *what, const vrt::Box<ST::string> &box, const std::string &ctx, ssize_t except_slot = -1)
+    void owns(const char *what, const SBox &box, const std::string &ctx, ssize_t except_slot = -1)
     {
         const ST::string &s = *box;
         const char *d = s.c_str();
@@ -147,6 +315,8 @@ struct Pool {
         for (size_t i = 0; i < N; ++i) {
             if (!obj[i] || static_cast<ssize_t>(i) == mutated || static_cast<ssize_t>(i) == mutated2 || !before[i].data) continue;
             const ST::string &s = **obj[i];
+            // (nothing is read through a data pointer that is neither inside the object nor a live block: a write that left a neighbouring object may have replaced it)
+            if (s.size() < 16 && !obj[i]->inside(s.c_str())) { fail("bystander-data-pointer-changed", sfmt("slot %zu (size %zu): its data pointer no longer designates its own in-object storage after %s", i, s.size(), op.c_str())); continue; }
             if (!readable(s)) { fail("bystander-storage-released", sfmt("slot %zu (size %zu): its heap block is no longer live after %s", i, s.size(), op.c_str())); continue; }
             if (!same_bytes(s, before[i].bytes))
                 fail("bystander-value-changed", sfmt("slot %zu %s (expected = before) after %s", i, show_at(s, before[i].bytes).c_str(), op.c_str()));
@@ -169,6 +339,7 @@ struct Pool {
                 moved_from[i] = false;
                 vrt::count("moved_from.adopted");
             }
+            if (s.size() < 16 && !obj[i]->inside(s.c_str())) { fail("short-content-not-in-object", sfmt("slot %zu (size %zu) after %s", i, s.size(), op.c_str())); obj[i] = nullptr; continue; }      // (given up: nothing is read or released through it)
             if (!readable(s)) { fail("storage-released", sfmt("slot %zu (size %zu): its heap block is no longer live after %s", i, s.size(), op.c_str())); continue; }
             if (!same_bytes(s, shadow[i]))
                 fail("value-differs-from-model", sfmt("slot %zu %s after %s", i, show_at(s, shadow[i]).c_str(), op.c_str()));
@@ -179,6 +350,7 @@ struct Pool {
             for (size_t j = i + 1; j < N; ++j)
                 if (obj[i] && obj[j] && (**obj[i]).size() >= 16 && (**obj[i]).c_str() == (**obj[j]).c_str())
                     fail("two-strings-share-storage", sfmt("slots %zu and %zu after %s", i, j, op.c_str()));
+        if (!places.canaries_intact()) fail("neighbouring-member-overwritten", sfmt("the int member in front of a string inside a struct / pair no longer holds its value, after %s", op.c_str()));
         va::check_pairing("value");
     }
 };
@@ -247,8 +419,27 @@ static S big_value(Rng &r, size_t len)
 
 // the length of the next value of a scale case: the main length n of the case and its neighbours, another boundary length, half of
 // it, the exact size of a string that is alive right now - or one of the small size classes
+// soak: values above the small-string limit (64..300 bytes): words, mixed UTF-8, mixed case, or plain ASCII whose only non-ASCII
+// characters are the last 2..7 bytes
+static S soak_value(Rng &r)
+{
+    const size_t len = 64 + r.below(237);
+    switch (r.below(5)) {
+    case 0: return gen::bytes_over(r, len, "abcdefghijklmnopqrstuvwxyz  ,;");
+    case 1: return scale::utf8_background(r, len, scale::MIXED_UTF8);
+    case 2: return gen::bytes_over(r, len, "abcdefghABCDEFGH ,");
+    case 3: return pick_value(r);
+    default: {
+        static const char *const tails[] = {"\xC3\xA9", "\xE2\x82\xAC", "\xF0\x9F\x98\x80", "\xC3\x89\xE2\x82\xAC", "\xE2\x82\xAC\xEF\xBF\xBD", "\xF0\x9F\x98\x80\xE2\x82\xAC"};
+        const S tail = r.pick(tails);
+        return gen::bytes_over(r, len - tail.size(), "abcdefghijklmnop") + tail;
+    }
+    }
+}
+
 static S pick_for(Pool &p, Rng &r)
 {
+    if (p.soak_mode) return soak_value(r);
     if (!p.scale_mode) return pick_value(r);
     const size_t n = p.scale_n;
     size_t len;
@@ -267,14 +458,14 @@ static S pick_for(Pool &p, Rng &r)
 // scale: the needle of the searching operations is a short piece of t (an object of its own) instead of the whole of a big t - the
 // reference model scans naively (and so may the library); everything that does not search takes t itself
 struct Needle {
-    std::unique_ptr<vrt::Box<ST::string>> box;
+    std::unique_ptr<SBox> box;
     S bytes;
     Needle(Pool &p, Rng &r, const S &mt)
     {
         if (p.scale_mode && mt.size() > 64) {
             const size_t k = 2 + r.below(7), at = r.chance(1, 2) ? scale::offset_any(r, mt.size() - k) : r.below(mt.size() - k + 1);
             bytes = mt.substr(at, k);
-            box.reset(new vrt::Box<ST::string>(vrt::mk(bytes)));
+            box.reset(new SBox(vrt::mk(bytes)));
         }
     }
 };
@@ -286,13 +477,13 @@ static bool dense(Pool &p, size_t pieces)
 
 // A const operation on slot i; returns the results as boxed strings with their expected values
 struct Produced {
-    std::vector<vrt::Box<ST::string> *> results;
+    std::vector<SBox *> results;
     std::vector<S> expected;
     ~Produced() { for (auto *p : results) delete p; }
-    void add(ST::string &&s, const S &want) { results.push_back(new vrt::Box<ST::string>(std::move(s))); expected.push_back(want); }
+    void add(ST::string &&s, const S &want) { results.push_back(new SBox(std::move(s))); expected.push_back(want); }
 };
 
-static std::string const_op(Pool &p, Rng &r, size_t i, size_t j, Produced &out)
+static std::string const_op(Pool &p, Rng &r, size_t i, size_t j, Produced &out, int forced = -1)
 {
     const ST::string &s = **p.obj[i];
     const ST::string &t = **p.obj[j];
@@ -304,7 +495,7 @@ static std::string const_op(Pool &p, Rng &r, size_t i, size_t j, Produced &out)
     const ST::string &tn = needle.box ? **needle.box : t;
     const S &mtn = needle.box ? needle.bytes : mt;
     const bool at_scale = p.scale_mode && ms.size() > 256;
-    switch (r.below(30)) {
+    switch (forced >= 0 ? static_cast<uint64_t>(forced) : r.below(30)) {
     case 0: out.add(s.substr(0), ms); d = "substr(whole)"; vrt::count("op.result_equals_source"); break;
     case 1: {
         long st; size_t c;
@@ -528,7 +719,7 @@ static void probe_bound(Pool &p, Rng &r, size_t i, const std::vector<Snap> &befo
         else { auto &&b = (EXPR); probe_bound(p, r, i, before, b, (WANT), d); }                   \
     } while (0)
 
-static std::string bound_op(Pool &p, Rng &r, size_t i, size_t j, const std::vector<Snap> &before)
+static std::string bound_op(Pool &p, Rng &r, size_t i, size_t j, const std::vector<Snap> &before, int forced = -1)
 {
     const ST::string &s = **p.obj[i];
     const ST::string &t = **p.obj[j];
@@ -541,7 +732,7 @@ static std::string bound_op(Pool &p, Rng &r, size_t i, size_t j, const std::vect
     const S &mtn = needle.box ? needle.bytes : mt;
     const bool at_scale = p.scale_mode && ms.size() > 256;
     const S *none = nullptr;
-    const unsigned which = static_cast<unsigned>(r.below(30));
+    const unsigned which = forced >= 0 ? static_cast<unsigned>(forced) : static_cast<unsigned>(r.below(30));
     std::string d = sfmt("s%zu[%zu] bound to %s = ", i, ms.size(), form ? "const auto &" : "auto &&");
     S want;
     try {
@@ -628,7 +819,7 @@ static void refresh_and_disturb(Pool &p, Rng &r, size_t i, std::vector<Snap> &be
             d = sfmt("s%zu[%zu] = s%zu (the size it holds)", i, size, twin);
         } else {
             S v = size < 256 ? gen::bytes_over(r, size, "abcdefghijklmnopqrstuvwxyz  ,;") : big_value(r, size);
-            vrt::Box<ST::string> src(vrt::mk(v));
+            SBox src(vrt::mk(v));
             switch (r.below(3)) {
             case 0: s = static_cast<const ST::string &>(*src); break;
             case 1: s.set(static_cast<const ST::string &>(*src)); break;
@@ -654,7 +845,7 @@ static void refresh_and_disturb(Pool &p, Rng &r, size_t i, std::vector<Snap> &be
         switch (r.below(5)) {
         case 0: o.clear(); p.shadow[k].clear(); p.moved_from[k] = false; d = sfmt("s%zu.clear() (another string)", k); break;
         case 1: { size_t j = r.below(Pool::N); if (!p.obj[j] || p.moved_from[j]) j = i; o = static_cast<const ST::string &>(**p.obj[j]); p.shadow[k] = p.shadow[j]; p.moved_from[k] = false; d = sfmt("s%zu = s%zu (another string)", k, j); break; }
-        case 2: { S v = pick_for(p, r); vrt::Box<ST::string> src(vrt::mk(v)); o.set(static_cast<const ST::string &>(*src)); p.shadow[k].swap(v); p.moved_from[k] = false; d = sfmt("s%zu.set(new value[%zu]) (another string)", k, p.shadow[k].size()); break; }
+        case 2: { S v = pick_for(p, r); SBox src(vrt::mk(v)); o.set(static_cast<const ST::string &>(*src)); p.shadow[k].swap(v); p.moved_from[k] = false; d = sfmt("s%zu.set(new value[%zu]) (another string)", k, p.shadow[k].size()); break; }
         case 3: { o = static_cast<const ST::string &>(**p.obj[i]); p.shadow[k] = p.shadow[i]; p.moved_from[k] = false; d = sfmt("s%zu = s%zu (from the refreshed string)", k, i); break; }
         default: p.kill(k); d = sfmt("destroy s%zu (another string)", k); break;
         }
@@ -663,6 +854,178 @@ static void refresh_and_disturb(Pool &p, Rng &r, size_t i, std::vector<Snap> &be
         p.check_models(d);
         vrt::count("scale.other_big_string_released_after_a_same_size_assignment");
     }
+}
+
+// One step of a history on the live slots i and j.  kind: 0..5 a const operation followed by the independence test on its results,
+// 6..9 a mutator on slot i, 10..11 a const operation whose result the caller holds by reference, 12.. (scale) refresh and disturb.
+// which >= 0 names the operation inside the kind (the scripted phases; the histories draw it); keep_source: the independence test
+// modifies the results and never the source.
+static void one_step(Pool &p, Rng &r, std::vector<Snap> &before, size_t i, size_t j, unsigned kind, int which = -1, bool keep_source = false)
+{
+    std::string d;
+    ssize_t mut = -1, mut2 = -1;
+    if (kind >= 12) {
+        refresh_and_disturb(p, r, i, before);
+        vrt::count("steps");
+        return;
+    }
+    if (kind >= 10) {
+        // ---- a const operation whose result the caller holds by reference
+        d = bound_op(p, r, i, j, before, which);
+        p.log(d);
+        p.check_models(d);
+        vrt::count("steps");
+        return;
+    }
+    if (kind < 6) {
+        // ---- a const operation, then the independence test on its results
+        Produced out;
+        try {
+            d = const_op(p, r, i, j, out, which);
+        } catch (const ST::unicode_error &e) {
+            // validating overloads may reject operands that are not valid UTF-8 (reachable after a byte-wise cut)
+            d = sfmt("s%zu const op rejected: %s", i, e.what());
+            if (ref::utf8_ok(p.shadow[i]) && ref::utf8_ok(p.shadow[j])) p.fail("unexpected-unicode_error", d);
+            vrt::count("op.rejected_invalid_utf8");
+        }
+        p.log(d);
+        p.unchanged_except(before, -1, -1, d);
+        for (size_t k = 0; k < out.results.size(); ++k) {
+            const ST::string &res = **out.results[k];
+            if (!Pool::same_bytes(res, out.expected[k]))
+                p.fail("wrong-result", sfmt("%s result %zu %s", d.c_str(), k, Pool::show_at(res, out.expected[k]).c_str()));
+            p.owns("result", *out.results[k], d);
+            for (size_t m = 0; m < k; ++m)
+                if (res.size() >= 16 && res.c_str() == (**out.results[m]).c_str()) p.fail("two-results-share-storage", d);
+        }
+        vrt::count("results", out.results.size());
+        if (!out.results.empty()) {
+            if (!keep_source && r.chance(1, 2)) {
+                // overwrite or destroy the SOURCE first: results must keep their values
+                if (r.chance(1, 2)) {
+                    S nv = (p.scale_mode && p.shadow[i].size() > 256) ? big_value(r, p.shadow[i].size() + 3) : S(p.shadow[i].size() + 3, '#');
+                    **p.obj[i] = vrt::mk(nv); p.shadow[i].swap(nv); p.log("overwrite source");
+                }
+                else { p.kill(i); p.log("destroy source"); }
+                for (size_t k = 0; k < out.results.size(); ++k) {
+                    const ST::string &res = **out.results[k];
+                    if (!Pool::same_bytes(res, out.expected[k])) p.fail("result-changed-with-its-source", d);
+                }
+                vrt::count("independence.source_first");
+            } else {
+                // modify / reassign / destroy the RESULTS first: the source (and everything else) must not change
+                for (auto *box : out.results) {
+                    switch (r.below(3)) {
+                    case 0: **box = "overwritten-result-value-0123456789"; break;
+                    case 1: **box += "+"; break;
+                    default: (**box).clear(); break;
+                    }
+                }
+                p.unchanged_except(before, -1, -1, d + " + result overwrite");
+                vrt::count("independence.result_first");
+            }
+        }
+    } else {
+        // ---- a mutator on slot i
+        ST::string &s = **p.obj[i];
+        const ST::string &t = **p.obj[j];
+        const S mt = p.shadow[j];
+        mut = static_cast<ssize_t>(i);
+        unsigned m = which >= 0 ? static_cast<unsigned>(which) : static_cast<unsigned>(r.below(16));
+        // scale: values grown by += stay below a cap (the step becomes an assignment instead)
+        if (p.grow_cap && m == 4 && p.shadow[i].size() + mt.size() > p.grow_cap) m = 0;
+        if (p.grow_cap && m == 5 && 2 * p.shadow[i].size() > p.grow_cap) m = 1;
+        // a range inside the string's own storage: anywhere, or (scale) starting next to a multiple of a block size and often running to the end
+        auto own_range = [&](size_t &k, size_t &n) {
+            const size_t sz = p.shadow[i].size();
+            if (p.scale_mode && sz > 256 && r.chance(2, 3)) { k = scale::offset_any(r, sz); n = r.chance(1, 2) ? sz - k : r.below(sz - k + 1); }
+            else { k = r.below(sz + 1); n = r.below(sz - k + 1); }
+        };
+        switch (m) {
+        case 0: s = t; p.shadow[i] = mt; d = sfmt("s%zu = s%zu", i, j); if (i == j) vrt::count("op.self_referential"); break;
+        case 1: s.set(t); p.shadow[i] = mt; d = sfmt("s%zu.set(s%zu)", i, j); if (i == j) vrt::count("op.self_referential"); break;
+        case 2: s = std::move(**p.obj[j]); d = sfmt("s%zu = move(s%zu)", i, j);
+                if (i == j) { p.moved_from[i] = true; vrt::count("op.self_referential"); } else { p.shadow[i] = mt; p.moved_from[j] = true; mut2 = static_cast<ssize_t>(j); }
+                vrt::count("op.move"); break;
+        case 3: s.set(std::move(**p.obj[j])); d = sfmt("s%zu.set(move(s%zu))", i, j);
+                if (i == j) p.moved_from[i] = true; else { p.shadow[i] = mt; p.moved_from[j] = true; mut2 = static_cast<ssize_t>(j); }
+                vrt::count("op.move"); break;
+        case 4: s += t; p.shadow[i] += mt; d = sfmt("s%zu += s%zu", i, j); if (i == j) vrt::count("op.self_referential"); break;
+        case 5: s += s; p.shadow[i] += p.shadow[i]; d = sfmt("s%zu += s%zu (self)", i, i); vrt::count("op.self_referential"); break;
+        case 6: s += "tail"; p.shadow[i] += "tail"; d = sfmt("s%zu += \"tail\"", i); break;
+        case 7: s += 'c'; s += U'é'; p.shadow[i] += "c\xC3\xA9"; d = sfmt("s%zu += chars", i); break;
+        case 8: s.clear(); p.shadow[i].clear(); d = sfmt("s%zu.clear()", i); break;
+        case 9: { S v = pick_for(p, r); s = vrt::mk(v); p.shadow[i] = v; d = sfmt("s%zu = new value[%zu]", i, v.size()); break; }
+        case 10: s = "c-string value that is long enough"; p.shadow[i] = "c-string value that is long enough"; d = sfmt("s%zu = cstr", i); break;
+        case 11: {
+            ST::char_buffer b = t.to_utf8();
+            d = sfmt("s%zu = move(s%zu.to_utf8())", i, j);
+            try { s = std::move(b); p.shadow[i] = mt; }
+            catch (const ST::unicode_error &) { if (ref::utf8_ok(mt)) p.fail("unexpected-unicode_error", d); }
+            break;
+        }
+        case 12: if (r.chance(1, 2)) s.set_validated(t.c_str(), t.size()); else s.set_validated(t.u8_str(), t.size()); p.shadow[i] = mt; d = sfmt("s%zu.set_validated(s%zu bytes)", i, j); if (i == j) vrt::count("op.self_referential"); break;
+        case 13: s = s.substr(1); p.shadow[i] = ref::substr(p.shadow[i], 1, static_cast<size_t>(-1)); d = sfmt("s%zu = s%zu.substr(1)", i, i); vrt::count("op.self_referential"); break;
+        case 14: {
+            // assignment from a pointer / view into the string's own storage
+            unsigned sub = static_cast<unsigned>(r.below(9));
+            if (p.grow_cap && sub == 5 && 2 * p.shadow[i].size() > p.grow_cap) sub = 2;      // (5 appends the string's own tail)
+            switch (sub) {
+            case 6: case 7: case 8: {
+                // ... the same through the repairing / checking modes: the source range is inside the target's own storage
+                size_t k, n; own_range(k, n);
+                const S src = p.shadow[i].substr(k, n);
+                const bool subst = r.chance(2, 3), view = r.chance(1, 2);
+                const ST::utf_validation_t m = subst ? ST::substitute_invalid : ST::check_validity;
+                d = sfmt("s%zu.set(%s into s%zu at %zu,%zu; %s)", i, view ? "view" : "pointer", i, k, n, subst ? "substitute_invalid" : "check_validity");
+                try {
+                    if (view) s.set(s.view(k, n), m); else s.set(s.c_str() + k, n, m);
+                    if (!subst && !ref::utf8_ok(src)) p.fail("accepted-invalid-self-range", d);
+                    p.shadow[i] = subst ? ref::cleanup_utf8(src) : src;
+                } catch (const ST::unicode_error &) { if (subst || ref::utf8_ok(src)) p.fail("unexpected-unicode_error", d); }
+                break;
+            }
+            case 0: if (r.chance(1, 2)) { s.set(s); d = sfmt("s%zu.set(self)", i); }
+                    else {   // a sub-range of its own bytes, through both spellings of set_validated
+                        size_t k, n; own_range(k, n);
+                        const S want = p.shadow[i].substr(k, n);
+                        if (r.chance(1, 2)) s.set_validated(s.c_str() + k, n); else s.set_validated(s.u8_str() + k, n);
+                        p.shadow[i] = want;
+                        d = sfmt("s%zu.set_validated(own bytes %zu,%zu)", i, k, n);
+                    }
+                    break;
+            case 1: { size_t z = p.shadow[i].find('\0'); S want = z == S::npos ? p.shadow[i] : p.shadow[i].substr(0, z);
+                      d = sfmt("s%zu = s%zu.c_str()", i, i);
+                      try { s = s.c_str(); p.shadow[i] = want; } catch (const ST::unicode_error &) { if (ref::utf8_ok(want)) p.fail("unexpected-unicode_error", d); }
+                      break; }
+            case 2: { size_t k, n; own_range(k, n); S want = p.shadow[i].substr(k, n);
+                      d = sfmt("s%zu.set(s%zu.c_str()+%zu,%zu,assume_valid)", i, i, k, n);
+                      s.set(s.c_str() + k, n, ST::assume_valid); p.shadow[i] = want; break; }
+            case 3: { size_t k, n; own_range(k, n); S want = p.shadow[i].substr(k, n);
+                      d = sfmt("s%zu = s%zu.view(%zu,%zu)", i, i, k, n);
+                      try { s = s.view(k, n); p.shadow[i] = want; } catch (const ST::unicode_error &) { if (ref::utf8_ok(want)) p.fail("unexpected-unicode_error", d); }
+                      break; }
+            case 4: { size_t z = p.shadow[i].find('\0'); S want = z == S::npos ? p.shadow[i] : p.shadow[i].substr(0, z);
+                      d = sfmt("s%zu = s%zu.u8_str()", i, i);
+                      try { s = s.u8_str(); p.shadow[i] = want; } catch (const ST::unicode_error &) { if (ref::utf8_ok(want)) p.fail("unexpected-unicode_error", d); }
+                      break; }
+            default: { const size_t k = r.chance(1, 2) ? 0 : r.below(p.shadow[i].size() + 1);
+                      size_t z = p.shadow[i].find('\0', k); S tail = z == S::npos ? p.shadow[i].substr(k) : p.shadow[i].substr(k, z - k);
+                      d = sfmt("s%zu += s%zu.c_str()+%zu", i, i, k);
+                      try { s += s.c_str() + k; p.shadow[i] += tail; } catch (const ST::unicode_error &) { if (ref::utf8_ok(tail)) p.fail("unexpected-unicode_error", d); }
+                      break; }
+            }
+            vrt::count("op.self_referential");
+            break;
+        }
+        default: { ST::string tmp(std::move(s)); p.moved_from[i] = true; d = sfmt("move-construct from s%zu, then destroy the new object", i); vrt::count("op.move"); break; }
+        }
+        p.log(d);
+        p.unchanged_except(before, mut, mut2, d);
+        vrt::count("mutators");
+    }
+    p.check_models(d);
+    vrt::count("steps");
 }
 
 static void history(Rng &r, size_t steps, size_t scale_n = 0)
@@ -683,174 +1046,251 @@ static void history(Rng &r, size_t steps, size_t scale_n = 0)
         if (!p.obj[i]) { p.make(i, pick_for(p, r)); p.log(sfmt("s%zu=new[%zu]", i, p.shadow[i].size())); p.check_models("create"); continue; }
         if (!p.obj[j]) j = i;
         p.snapshot(before);
-        std::string d;
-        ssize_t mut = -1, mut2 = -1;
         const unsigned kind = static_cast<unsigned>(r.below(p.scale_mode ? 14 : 12));
-        if (kind >= 12) {
-            refresh_and_disturb(p, r, i, before);
-            vrt::count("steps");
-            continue;
-        }
-        if (kind >= 10) {
-            // ---- a const operation whose result the caller holds by reference
-            d = bound_op(p, r, i, j, before);
-            p.log(d);
-            p.check_models(d);
-            vrt::count("steps");
-            continue;
-        }
-        if (kind < 6) {
-            // ---- a const operation, then the independence test on its results
-            Produced out;
-            try {
-                d = const_op(p, r, i, j, out);
-            } catch (const ST::unicode_error &e) {
-                // validating overloads may reject operands that are not valid UTF-8 (reachable after a byte-wise cut)
-                d = sfmt("s%zu const op rejected: %s", i, e.what());
-                if (ref::utf8_ok(p.shadow[i]) && ref::utf8_ok(p.shadow[j])) p.fail("unexpected-unicode_error", d);
-                vrt::count("op.rejected_invalid_utf8");
-            }
-            p.log(d);
-            p.unchanged_except(before, -1, -1, d);
-            for (size_t k = 0; k < out.results.size(); ++k) {
-                const ST::string &res = **out.results[k];
-                if (!Pool::same_bytes(res, out.expected[k]))
-                    p.fail("wrong-result", sfmt("%s result %zu %s", d.c_str(), k, Pool::show_at(res, out.expected[k]).c_str()));
-                p.owns("result", *out.results[k], d);
-                for (size_t m = 0; m < k; ++m)
-                    if (res.size() >= 16 && res.c_str() == (**out.results[m]).c_str()) p.fail("two-results-share-storage", d);
-            }
-            vrt::count("results", out.results.size());
-            if (!out.results.empty()) {
-                if (r.chance(1, 2)) {
-                    // overwrite or destroy the SOURCE first: results must keep their values
-                    if (r.chance(1, 2)) {
-                        S nv = (p.scale_mode && p.shadow[i].size() > 256) ? big_value(r, p.shadow[i].size() + 3) : S(p.shadow[i].size() + 3, '#');
-                        **p.obj[i] = vrt::mk(nv); p.shadow[i].swap(nv); p.log("overwrite source");
-                    }
-                    else { p.kill(i); p.log("destroy source"); }
-                    for (size_t k = 0; k < out.results.size(); ++k) {
-                        const ST::string &res = **out.results[k];
-                        if (!Pool::same_bytes(res, out.expected[k])) p.fail("result-changed-with-its-source", d);
-                    }
-                    vrt::count("independence.source_first");
-                } else {
-                    // modify / reassign / destroy the RESULTS first: the source (and everything else) must not change
-                    for (auto *box : out.results) {
-                        switch (r.below(3)) {
-                        case 0: **box = "overwritten-result-value-0123456789"; break;
-                        case 1: **box += "+"; break;
-                        default: (**box).clear(); break;
-                        }
-                    }
-                    p.unchanged_except(before, -1, -1, d + " + result overwrite");
-                    vrt::count("independence.result_first");
-                }
-            }
-        } else {
-            // ---- a mutator on slot i
-            ST::string &s = **p.obj[i];
-            const ST::string &t = **p.obj[j];
-            const S mt = p.shadow[j];
-            mut = static_cast<ssize_t>(i);
-            unsigned m = static_cast<unsigned>(r.below(16));
-            // scale: values grown by += stay below a cap (the step becomes an assignment instead)
-            if (p.scale_mode && m == 4 && p.shadow[i].size() + mt.size() > p.grow_cap) m = 0;
-            if (p.scale_mode && m == 5 && 2 * p.shadow[i].size() > p.grow_cap) m = 1;
-            // a range inside the string's own storage: anywhere, or (scale) starting next to a multiple of a block size and often running to the end
-            auto own_range = [&](size_t &k, size_t &n) {
-                const size_t sz = p.shadow[i].size();
-                if (p.scale_mode && sz > 256 && r.chance(2, 3)) { k = scale::offset_any(r, sz); n = r.chance(1, 2) ? sz - k : r.below(sz - k + 1); }
-                else { k = r.below(sz + 1); n = r.below(sz - k + 1); }
-            };
-            switch (m) {
-            case 0: s = t; p.shadow[i] = mt; d = sfmt("s%zu = s%zu", i, j); if (i == j) vrt::count("op.self_referential"); break;
-            case 1: s.set(t); p.shadow[i] = mt; d = sfmt("s%zu.set(s%zu)", i, j); if (i == j) vrt::count("op.self_referential"); break;
-            case 2: s = std::move(**p.obj[j]); d = sfmt("s%zu = move(s%zu)", i, j);
-                    if (i == j) { p.moved_from[i] = true; vrt::count("op.self_referential"); } else { p.shadow[i] = mt; p.moved_from[j] = true; mut2 = static_cast<ssize_t>(j); }
-                    vrt::count("op.move"); break;
-            case 3: s.set(std::move(**p.obj[j])); d = sfmt("s%zu.set(move(s%zu))", i, j);
-                    if (i == j) p.moved_from[i] = true; else { p.shadow[i] = mt; p.moved_from[j] = true; mut2 = static_cast<ssize_t>(j); }
-                    vrt::count("op.move"); break;
-            case 4: s += t; p.shadow[i] += mt; d = sfmt("s%zu += s%zu", i, j); if (i == j) vrt::count("op.self_referential"); break;
-            case 5: s += s; p.shadow[i] += p.shadow[i]; d = sfmt("s%zu += s%zu (self)", i, i); vrt::count("op.self_referential"); break;
-            case 6: s += "tail"; p.shadow[i] += "tail"; d = sfmt("s%zu += \"tail\"", i); break;
-            case 7: s += 'c'; s += U'é'; p.shadow[i] += "c\xC3\xA9"; d = sfmt("s%zu += chars", i); break;
-            case 8: s.clear(); p.shadow[i].clear(); d = sfmt("s%zu.clear()", i); break;
-            case 9: { S v = pick_for(p, r); s = vrt::mk(v); p.shadow[i] = v; d = sfmt("s%zu = new value[%zu]", i, v.size()); break; }
-            case 10: s = "c-string value that is long enough"; p.shadow[i] = "c-string value that is long enough"; d = sfmt("s%zu = cstr", i); break;
-            case 11: {
-                ST::char_buffer b = t.to_utf8();
-                d = sfmt("s%zu = move(s%zu.to_utf8())", i, j);
-                try { s = std::move(b); p.shadow[i] = mt; }
-                catch (const ST::unicode_error &) { if (ref::utf8_ok(mt)) p.fail("unexpected-unicode_error", d); }
-                break;
-            }
-            case 12: if (r.chance(1, 2)) s.set_validated(t.c_str(), t.size()); else s.set_validated(t.u8_str(), t.size()); p.shadow[i] = mt; d = sfmt("s%zu.set_validated(s%zu bytes)", i, j); if (i == j) vrt::count("op.self_referential"); break;
-            case 13: s = s.substr(1); p.shadow[i] = ref::substr(p.shadow[i], 1, static_cast<size_t>(-1)); d = sfmt("s%zu = s%zu.substr(1)", i, i); vrt::count("op.self_referential"); break;
-            case 14: {
-                // assignment from a pointer / view into the string's own storage
-                unsigned sub = static_cast<unsigned>(r.below(9));
-                if (p.scale_mode && sub == 5 && 2 * p.shadow[i].size() > p.grow_cap) sub = 2;      // (5 appends the string's own tail)
-                switch (sub) {
-                case 6: case 7: case 8: {
-                    // ... the same through the repairing / checking modes: the source range is inside the target's own storage
-                    size_t k, n; own_range(k, n);
-                    const S src = p.shadow[i].substr(k, n);
-                    const bool subst = r.chance(2, 3), view = r.chance(1, 2);
-                    const ST::utf_validation_t m = subst ? ST::substitute_invalid : ST::check_validity;
-                    d = sfmt("s%zu.set(%s into s%zu at %zu,%zu; %s)", i, view ? "view" : "pointer", i, k, n, subst ? "substitute_invalid" : "check_validity");
-                    try {
-                        if (view) s.set(s.view(k, n), m); else s.set(s.c_str() + k, n, m);
-                        if (!subst && !ref::utf8_ok(src)) p.fail("accepted-invalid-self-range", d);
-                        p.shadow[i] = subst ? ref::cleanup_utf8(src) : src;
-                    } catch (const ST::unicode_error &) { if (subst || ref::utf8_ok(src)) p.fail("unexpected-unicode_error", d); }
-                    break;
-                }
-                case 0: if (r.chance(1, 2)) { s.set(s); d = sfmt("s%zu.set(self)", i); }
-                        else {   // a sub-range of its own bytes, through both spellings of set_validated
-                            size_t k, n; own_range(k, n);
-                            const S want = p.shadow[i].substr(k, n);
-                            if (r.chance(1, 2)) s.set_validated(s.c_str() + k, n); else s.set_validated(s.u8_str() + k, n);
-                            p.shadow[i] = want;
-                            d = sfmt("s%zu.set_validated(own bytes %zu,%zu)", i, k, n);
-                        }
-                        break;
-                case 1: { size_t z = p.shadow[i].find('\0'); S want = z == S::npos ? p.shadow[i] : p.shadow[i].substr(0, z);
-                          d = sfmt("s%zu = s%zu.c_str()", i, i);
-                          try { s = s.c_str(); p.shadow[i] = want; } catch (const ST::unicode_error &) { if (ref::utf8_ok(want)) p.fail("unexpected-unicode_error", d); }
-                          break; }
-                case 2: { size_t k, n; own_range(k, n); S want = p.shadow[i].substr(k, n);
-                          d = sfmt("s%zu.set(s%zu.c_str()+%zu,%zu,assume_valid)", i, i, k, n);
-                          s.set(s.c_str() + k, n, ST::assume_valid); p.shadow[i] = want; break; }
-                case 3: { size_t k, n; own_range(k, n); S want = p.shadow[i].substr(k, n);
-                          d = sfmt("s%zu = s%zu.view(%zu,%zu)", i, i, k, n);
-                          try { s = s.view(k, n); p.shadow[i] = want; } catch (const ST::unicode_error &) { if (ref::utf8_ok(want)) p.fail("unexpected-unicode_error", d); }
-                          break; }
-                case 4: { size_t z = p.shadow[i].find('\0'); S want = z == S::npos ? p.shadow[i] : p.shadow[i].substr(0, z);
-                          d = sfmt("s%zu = s%zu.u8_str()", i, i);
-                          try { s = s.u8_str(); p.shadow[i] = want; } catch (const ST::unicode_error &) { if (ref::utf8_ok(want)) p.fail("unexpected-unicode_error", d); }
-                          break; }
-                default: { const size_t k = r.chance(1, 2) ? 0 : r.below(p.shadow[i].size() + 1);
-                          size_t z = p.shadow[i].find('\0', k); S tail = z == S::npos ? p.shadow[i].substr(k) : p.shadow[i].substr(k, z - k);
-                          d = sfmt("s%zu += s%zu.c_str()+%zu", i, i, k);
-                          try { s += s.c_str() + k; p.shadow[i] += tail; } catch (const ST::unicode_error &) { if (ref::utf8_ok(tail)) p.fail("unexpected-unicode_error", d); }
-                          break; }
-                }
-                vrt::count("op.self_referential");
-                break;
-            }
-            default: { ST::string tmp(std::move(s)); p.moved_from[i] = true; d = sfmt("move-construct from s%zu, then destroy the new object", i); vrt::count("op.move"); break; }
-            }
-            p.log(d);
-            p.unchanged_except(before, mut, mut2, d);
-            vrt::count("mutators");
-        }
-        p.check_models(d);
-        vrt::count("steps");
+        one_step(p, r, before, i, j, kind);
     }
     vrt::distinct(vrt::fnv1a(p.history.data(), p.history.size(), 121));
     if (vrt::want_sample("history")) vrt::sample("history", p.history.substr(0, 600));
+}
+
+// ---- same_storage: within ONE case, 3..6 different values of IDENTICAL size that share their first and last 16 bytes and differ in
+// between in ways that change the answers (other multi-byte characters, upper case, the needle earlier / later / absent, other
+// separators, an ill-formed byte), each brought to the same addresses before the library sees it: (a) as the caller's bytes - one
+// malloc'ed block (ending where the text ends, starting at every alignment 0..15) that is overwritten in place and handed to every
+// route that builds a string from a pointer; (b) as a pool string - the previous one is destroyed and its successor built right
+// away with the releases parked, so that the object and its heap block come back at the addresses of the dead ones (counted and
+// required, not asserted).  Every value then goes through all 30 const operations in an order that differs from value to value
+// (results modified first, so the value stays), with calls that throw in between, then through reference-bound results and mutators.
+static S same_storage_middle(Rng &r, size_t len, unsigned flavour, const S &needle)
+{
+    // (pieces are concatenated, never overwritten: every value is well-formed unless the flavour says otherwise)
+    const scale::Background bg = flavour == 1 ? scale::MIXED_UTF8 : flavour == 3 ? scale::TWO_BYTE_RUN : flavour == 4 ? scale::FOUR_BYTE_RUN : scale::ASCII_WORDS;
+    static const char *const specials[] = {",", ";", "  ", "\t", "12345", "-7", "A", "QZ", "\xC4\xB0", "\xE2\x82\xAC"};
+    S piece[4];
+    size_t used = 0;
+    const bool with_needle = !needle.empty() && !r.chance(1, 4);
+    if (with_needle) { piece[0] = needle; used += needle.size(); }
+    for (size_t k = 1; k < 4; ++k) { piece[k] = r.pick(specials); used += piece[k].size(); }
+    if (flavour == 5) { used -= piece[3].size(); piece[3] = S(1, static_cast<char>(0x80 + r.below(0x40))); used += 1; }       // a continuation byte with nothing to continue
+    if (used > len) return scale::utf8_background(r, len, bg);
+    size_t gaps[5], left = len - used;
+    for (size_t k = 0; k < 4; ++k) { gaps[k] = r.chance(1, 6) ? 0 : r.below(left + 1); left -= gaps[k]; }
+    gaps[4] = left;
+    size_t order[4] = {0, 1, 2, 3};
+    for (size_t a = 3; a > 0; --a) std::swap(order[a], order[r.below(a + 1)]);
+    S v;
+    v.reserve(len);
+    for (size_t k = 0; k < 4; ++k) {
+        S g = scale::utf8_background(r, gaps[k], bg);
+        if (flavour == 2) for (char &c : g) if (c >= 'a' && c <= 'z' && r.chance(1, 3)) c = static_cast<char>(c - 32);
+        v += g;
+        v += piece[order[k]];
+    }
+    v += scale::utf8_background(r, gaps[4], bg);
+    return v;
+}
+
+static void same_storage_case(uint64_t idx, Rng &r)
+{
+    static const size_t sizes[] = {20, 40, 64, 100, 256, 300, 1024, 1500, 4096, 5000, 20000, 66000};
+    const size_t nsizes = sizeof(sizes) / sizeof(sizes[0]);
+    const size_t n = sizes[idx % nsizes], align = (idx / nsizes) % 16;
+    Pool p;
+    const size_t N = Pool::N;
+    p.sane_max = std::max<size_t>(100000, 4 * n);
+    for (size_t i = 0; i < N; ++i) if (r.chance(1, 2)) p.make(i, pick_value(r));
+    const size_t X = r.below(4), J = 4 + r.below(4);           // X: the string under test (a neighbour inside a block in some pools); J: the needle
+    const S needle = "q" + gen::bytes_over(r, 1 + r.below(4), "jvz");
+    p.make(J, needle);
+    // the values
+    const size_t K = 3 + r.below(4), edge = n >= 48 ? 16 : n / 3;
+    const S head = gen::bytes_over(r, edge, "abcdefghijklmnoprstuwxy"), tail = gen::bytes_over(r, edge, "abcdefghijklmnoprstuwxy");
+    std::vector<S> values;
+    for (size_t k = 0; k < K; ++k) {
+        const unsigned flavour = static_cast<unsigned>((k + r.below(2)) % 6);
+        values.push_back(head + same_storage_middle(r, n - 2 * edge, flavour, n >= 40 ? needle : S()) + tail);
+    }
+    // (a) the caller's storage: one block for all values, NUL behind the text
+    char *block = static_cast<char *>(malloc(align + n + 1));
+    if (!block) { fprintf(stderr, "vrt: out of memory\n"); _exit(98); }
+    memset(block, 0x5A, align);
+    if (align == 8) SP::poison(block, align);
+    char *const text = block + align;
+    std::vector<Snap> before;
+    S ctx = sfmt("same_storage: %zu values of %zu bytes, the caller's text %zu bytes into its block", K, n, align);
+    p.log(ctx);
+    for (size_t k = 0; k < K; ++k) {
+        const S &val = values[k];
+        const bool valid = ref::utf8_ok(val), cstr = val.find('\0') == S::npos;
+        memcpy(text, val.data(), n);                         // in place: same address, same length, same first and last bytes
+        text[n] = 0;
+        vrt::cur_printf("value %zu of %zu: %s\n", k + 1, K, scale::brief(val).c_str());
+        // ---- (a) every route from a pointer, in another order for every value; a call that throws in between
+        {
+            p.snapshot(before);
+            Produced out;
+            SBox scratch1(vrt::mk(values[(k + 1) % K])), scratch2(vrt::mk("previously: ")), scratch3(vrt::mk(values[(k + K - 1) % K]));
+            unsigned order[10] = {0, 1, 2, 3, 4, 5, 6, 7, 8, 9};
+            for (size_t a = 9; a > 0; --a) std::swap(order[a], order[r.below(a + 1)]);
+            const S d = sfmt("strings from the caller's text (value %zu)", k + 1);
+            for (unsigned which : order) {
+                try {
+                    switch (which) {
+                    case 0: out.add(ST::string(text, n, ST::assume_valid), val); break;
+                    case 1: out.add(ST::string::from_validated(text, n), val); break;
+                    case 2: out.add(ST::string::from_utf8(text, n, ST::check_validity), val); break;              // (throws when the value is ill-formed)
+                    case 3: if (valid && cstr) out.add(ST::string(text), val); break;
+                    case 4: (*scratch1).set_validated(text, n); out.add(ST::string(*scratch1), val); break;
+                    case 5: if (valid && cstr) { *scratch3 = text; out.add(ST::string(*scratch3), val); } break;
+                    case 6: if (valid && cstr) { *scratch2 += text; out.add(ST::string(*scratch2), "previously: " + val); } break;
+                    case 7: { S want; for (unsigned char c : val) ref::enc_utf8(want, c); out.add(ST::string::from_latin_1(text, n), want); break; }
+                    case 8: out.add(ST::string::from_utf8(text, n, ST::substitute_invalid), valid ? val : ref::cleanup_utf8(val)); break;
+                    default: {
+                        // the same text with one ill-formed byte in the middle, at the same address: rejected; then the text is put back
+                        const char keep = text[n / 2];
+                        text[n / 2] = static_cast<char>(0xFF);
+                        try { ST::string bad(text, n, ST::check_validity); } catch (const ST::unicode_error &) { vrt::count("same_storage.calls_that_threw"); }
+                        text[n / 2] = keep;
+                        break;
+                    }
+                    }
+                } catch (const ST::unicode_error &e) {
+                    if (valid) p.fail("unexpected-unicode_error", sfmt("%s route %u: %s", d.c_str(), which, e.what()));
+                    vrt::count("same_storage.calls_that_threw");
+                }
+            }
+            p.unchanged_except(before, -1, -1, d);
+            for (size_t m = 0; m < out.results.size(); ++m) {
+                const ST::string &res = **out.results[m];
+                if (!Pool::same_bytes(res, out.expected[m])) p.fail("wrong-result", sfmt("%s result %zu %s", d.c_str(), m, Pool::show_at(res, out.expected[m]).c_str()));
+                p.owns("result", *out.results[m], d);
+                for (size_t q = 0; q < m; ++q)
+                    if (res.size() >= 16 && res.c_str() == (**out.results[q]).c_str()) p.fail("two-results-share-storage", d);
+            }
+            vrt::count("results", out.results.size());
+            vrt::count("same_storage.strings_built_from_the_callers_text", out.results.size());
+            p.check_models(d);
+            vrt::count("steps");
+        }
+        // ---- (b) the successor of the string under test, at the same addresses
+        {
+            const void *old_obj = nullptr, *old_data = nullptr;
+            if (p.obj[X]) {
+                old_obj = p.obj[X]->p;
+                old_data = (**p.obj[X]).c_str();
+                g_lead_next = static_cast<int>(reinterpret_cast<uintptr_t>(old_obj) % 16);
+                vrt::placement_force_parks() = 4;
+            }
+            p.make(X, val);
+            vrt::placement_force_parks() = 0;
+            g_lead_next = -1;
+            if (old_obj) {
+                vrt::count("same_storage.successors");
+                if (p.obj[X]->p == old_obj) vrt::count("same_storage.object_at_the_address_of_its_predecessor");
+                if ((**p.obj[X]).c_str() == old_data) vrt::count("same_storage.heap_block_at_the_address_of_its_predecessor");
+            }
+            p.log(sfmt("s%zu=value %zu", X, k + 1));
+            p.check_models("same_storage build");
+            vrt::count("same_storage.values");
+        }
+        // every const operation once, in another order for every value; the results are modified, the value stays
+        unsigned order[30];
+        for (unsigned a = 0; a < 30; ++a) order[a] = a;
+        for (size_t a = 29; a > 0; --a) std::swap(order[a], order[r.below(a + 1)]);
+        for (unsigned which : order) {
+            if (!p.obj[X]) break;
+            const size_t j = (r.chance(2, 3) || !p.obj[(X + 1 + which) % N]) ? J : (X + 1 + which) % N;
+            p.snapshot(before);
+            one_step(p, r, before, X, p.obj[j] ? j : X, 0, static_cast<int>(which), true);
+        }
+        // results held by reference (the source is modified after the first look), mutators
+        for (unsigned a = 0; a < 3 && p.obj[X]; ++a) {
+            p.snapshot(before);
+            one_step(p, r, before, X, p.obj[J] ? J : X, 10, static_cast<int>(r.below(30)));
+            if (!p.obj[X] || p.moved_from[X] || p.shadow[X] != val) { g_lead_next = p.obj[X] ? static_cast<int>(reinterpret_cast<uintptr_t>(p.obj[X]->p) % 16) : -1; vrt::placement_force_parks() = 4; p.make(X, val); vrt::placement_force_parks() = 0; g_lead_next = -1; }
+        }
+        for (unsigned a = 0; a < 3 && p.obj[X]; ++a) {
+            const size_t j = r.below(N);
+            p.snapshot(before);
+            one_step(p, r, before, X, p.obj[j] ? j : X, 6);
+        }
+        if (!p.obj[J] || p.moved_from[J] || p.shadow[J] != needle) p.make(J, needle);
+        if (!p.obj[X] || p.moved_from[X] || p.shadow[X].size() != n) p.make(X, val);          // (the next value's predecessor has its size)
+    }
+    if (align == 8) SP::unpoison(block, align);
+    free(block);
+    vrt::count("same_storage.cases");
+    vrt::distinct(vrt::fnv1a(p.history.data(), p.history.size(), vrt::fnv_u64(idx, 122)));
+    if (vrt::want_sample("same_storage") && idx > 30) vrt::sample("same_storage", p.history.substr(0, 500));
+}
+
+// ---- soak: more than 70000 consecutive steps on ONE pool inside ONE case (one process, one thread) with values above the small
+// limit (64..300 bytes), so that state a library might keep between calls - a counter that enables a path after N calls or wraps
+// after 2^16, a memo of the last argument or result - goes through its whole cycle.  The case has a family of steps (const
+// operations 0..15, const operations 16..29, mutators, reference-bound results); runs of 64..300 steps with the same operation on the
+// same unchanged strings (plain ASCII, the needle absent) are followed directly by the same operation on a value that differs only
+// at its very end (non-ASCII in the last bytes, or the needle as the last bytes).
+static void soak_case(uint64_t idx, Rng &r)
+{
+    const unsigned family = static_cast<unsigned>(idx % 4);
+    static const char *const fam[] = {"const operations 0..15", "const operations 16..29", "mutators", "results held by reference"};
+    const size_t target = vrt::opt().scale < 1.0 ? 8000 : 72000, N = Pool::N;          // (a scaled-down pass under an emulator runs a short one)
+    Pool p;
+    p.soak_mode = true;
+    p.grow_cap = 4096;
+    for (size_t i = 0; i < N; ++i) if (r.chance(2, 3)) p.make(i, pick_for(p, r));
+    std::vector<Snap> before;
+    size_t done = 0, runs = 0;
+    auto step = [&](size_t i, size_t j, unsigned kind, int which, bool keep) {
+        p.snapshot(before);
+        one_step(p, r, before, i, p.obj[j] ? j : i, kind, which, keep);
+        ++done;
+    };
+    while (done < target) {
+        const size_t run = 64 + r.below(237);
+        const size_t i = r.below(N), j = (i + 1 + r.below(N - 1)) % N;
+        if ((runs & 7) == 0) vrt::cur_rewind();                  // (the recorder keeps the last runs only)
+        // boring arguments: plain ASCII, the needle (4..40 bytes, carrying a letter the text does not have) is absent
+        const S plain = gen::bytes_over(r, 64 + r.below(237), "abcdefghijklmnop  ,");
+        const S needle = gen::bytes_over(r, 3 + r.below(37), "abcdefgh") + "Y";
+        p.make(i, plain);
+        p.make(j, needle);
+        unsigned kind;
+        int which;
+        switch (family) {
+        case 0: kind = 0; which = static_cast<int>(r.below(16)); break;
+        case 1: kind = 0; which = 16 + static_cast<int>(r.below(14)); break;
+        case 2: kind = 6; which = static_cast<int>(r.below(16)); break;
+        default: kind = 10; which = static_cast<int>(r.below(30)); break;
+        }
+        for (size_t k = 0; k < run; ++k) {
+            if (!p.obj[i] || (kind == 10 && (p.moved_from[i] || p.shadow[i] != plain))) p.make(i, plain);       // (a reference-bound result's source is modified by the probe)
+            if (kind == 6 && (!p.obj[j] || p.moved_from[j])) p.make(j, needle);
+            step(i, j, kind, which, true);
+        }
+        // the interesting one: the same operation on a value that differs from the boring one only at its end
+        S last = plain;
+        switch (r.below(3)) {
+        case 0: { static const char *const tails[] = {"\xC3\xA9", "\xE2\x82\xAC", "\xF0\x9F\x98\x80", "\xC3\x89\xE2\x82\xAC", "\xF0\x9F\x98\x80\xE2\x82\xAC"}; const S t = r.pick(tails); last.replace(last.size() - t.size(), t.size(), t); break; }
+        case 1: last.replace(last.size() - needle.size(), needle.size(), needle); break;
+        default: last[last.size() - 1 - r.below(7)] = 'Q'; break;
+        }
+        p.make(i, last);
+        if (!p.obj[j] || p.moved_from[j]) p.make(j, needle);
+        step(i, j, kind, which, true);
+        vrt::count("soak.runs_of_64_or_more_equal_steps_then_a_different_one");
+        ++runs;
+        // (something else in between)
+        for (size_t k = r.below(4); k > 0; --k) {
+            const size_t a = r.below(N), b = r.below(N);
+            if (!p.obj[a]) { p.make(a, pick_for(p, r)); continue; }
+            step(a, b, static_cast<unsigned>(r.below(12)), -1, false);
+        }
+    }
+    vrt::count("soak.steps", done);
+    if (done >= 70000) vrt::count("soak.cases_with_70000_or_more_consecutive_steps");
+    vrt::distinct(vrt::fnv1a(p.history.data(), p.history.size(), vrt::fnv_u64(idx, 123)));
+    if (vrt::want_sample("soak", 4)) vrt::sample("soak", sfmt("%s: %zu consecutive steps on one pool in one case, %zu runs of 64..300 equal steps each followed by one on a value that differs at its end", fam[family], done, runs), 4);
 }
 
 static void body()
@@ -874,6 +1314,24 @@ static void body()
               "the object and the storage the reference designates must not overlap any live string, and must keep place, size and bytes while the source is overwritten, appended to, cleared, moved from or destroyed");
     const size_t steps = vrt::thorough() ? 120 : 60;
     vrt::phase("histories", vrt::tier_count(40000, 300000), [&](uint64_t, Rng &r) { history(r, steps); });
+
+    // objects that are not 16-byte aligned, neighbours inside one block (all phases)
+    vrt::require("placement.objects_at_8_mod_16", 100000);
+    vrt::require("placement.objects_16_byte_aligned", 100000);
+    vrt::note("half of the stand-alone strings (pool objects, results, needles, temporaries the harness boxes) live at an address 8 mod 16 (8 bytes into a block that ends where the object ends); "
+              "a quarter of the pools keep their first 2..4 slots inside one block laid out as struct { int id; ST::string a; ST::string b; } (two of them), ST::string arr[3] or std::pair<int, ST::string> arr[2]");
+
+    vrt::require("same_storage.cases", 192);
+    vrt::require("same_storage.values", 600);
+    vrt::require("same_storage.strings_built_from_the_callers_text", 3000);
+    vrt::require("same_storage.calls_that_threw", 300);
+    vrt::require("same_storage.object_at_the_address_of_its_predecessor", 200);
+    vrt::require("same_storage.heap_block_at_the_address_of_its_predecessor", 200);
+    vrt::phase("same_storage", vrt::tier_count(16 * 12, 400 * 12), [&](uint64_t idx, Rng &r) { same_storage_case(idx, r); });
+
+    vrt::require("soak.cases_with_70000_or_more_consecutive_steps", 16);
+    vrt::require("soak.runs_of_64_or_more_equal_steps_then_a_different_one", 1000);
+    vrt::phase("soak", vrt::thorough() ? 64 : 16, [&](uint64_t idx, Rng &r) { soak_case(idx, r); });
 
     // scale: the same histories (same operations, same monitors) over pools that mix the small size classes with values of
     // q * B (+- a few) bytes for the block sizes B of rt/gen_scale.h, 4 KiB .. 1 MiB and a few up to 4 MiB: numeric arguments next to
